@@ -424,7 +424,7 @@ def sequences(rng, n, nshared):
                 api = [m for m in pool if m not in ('mask_write', 'values_write', 'vals_write', 'deriv_values_write')]
                 muts = [{'m': rng.choice(api)} for _ in range(rng.choice([1, 2, 4]))]
         for m in muts:
-            if m['m'] in ('delete_deriv', 'deriv_setitem', 'deriv_imul', 'deriv_values_write'):
+            if m['m'] in ('delete_deriv', 'deriv_setitem', 'deriv_imul', 'deriv_values_write') and 'key' not in m:
                 m['key'] = 't'
         case = {'type': 'seq', 'src': src, 'derive': derive, 'side': side, 'muts': muts}
         case['kind'] = 'seq:' + derive
@@ -503,6 +503,54 @@ def possible_members():
         return set()
 
 
+def units_catalogue(rng):
+    """catalogued Units helpers (model tie: operand itself / new Units object, nothing old changed)"""
+    out = []
+    def call(name, cat, ops, how='static', named=False):
+        c = finish({'type': 'call', 'cls': 'Units', 'name': name, 'how': how, 'owner': 'Units', 'ops': ops, 'kw': {}})
+        c['cat'] = cat
+        c['named'] = named
+        c['kind'] = 'cat:' + cat
+        out.append(c)
+    for u in ['KM', 'SECONDS', 'DEG', 'CM', 'RAD']:
+        U = {'k': 'units', 'name': u}
+        V = {'k': 'units', 'name': rng.choice(UNITS)}
+        for nm in ('mul_units', 'div_units'):
+            call(nm, 'unitsMulNone', [None, U, py(None)])
+            call(nm, 'unitsMulNone', [None, U, py(None), py('nm')], named=True)
+            call(nm, 'unitsNew', [None, U, V])
+        call('__mul__', 'self', [U, py(None)], how='method')
+        call('__truediv__', 'self', [U, py(None)], how='method')
+        call('__mul__', 'unitsNew', [U, V], how='method')
+        for p in (1, 2, -1, 1.0):
+            call('units_power', 'unitsNew', [None, U, py(p)])
+            call('__pow__', 'unitsNew', [U, py(p)], how='method')
+        call('as_units', 'self', [None, U][1:] if False else [None, U])
+    return out
+
+
+def alias_sequences(rng, n):
+    """c = a.copy(); c.insert_deriv(k, a or a derivative of a); mutate c's derivative; observe a"""
+    out = []
+    for _ in range(n):
+        cls = rng.choice(['Scalar', 'Vector3', 'Pair', 'Matrix'])
+        src = q(rng, cls, shape=rng.choice([[3], [2, 3], [2]]), plain=True, mask=rng.choice(['F', 'A']))
+        src['derivs'] = {'t': {'k': 'q', 'cls': cls, 'shape': src['shape'], 'numer': src['numer'],
+                               'seed': rng.randrange(1 << 20), 'dtype': 'float', 'mask': rng.choice(['F', 'A'])}}
+        what = rng.choice(['other', 't'])
+        tail = rng.choice([[], [{'m': 'deriv_setitem', 'key': 'n'}], [{'m': 'deriv_values_write', 'key': 'n'}],
+                           [{'m': 'deriv_setitem_0', 'key': 'n'}], [{'m': 'deriv_setitem_0', 'key': 'n'}],
+                           [{'m': 'setitem_all'}], [{'m': 'deriv_setitem', 'key': 't'}],
+                           [{'m': 'delete_deriv', 'key': 'n'}]])
+        case = {'type': 'seq', 'src': src, 'derive': 'copy', 'side': 'derived',
+                'muts': [{'m': 'insert_alias', 'key': 'n', 'what': what}] + tail}
+        case['kind'] = 'seq:alias'
+        case['id'] = 'seq ' + _json(case)
+        case['nontrivial'] = True
+        out.append(case)
+    return out
+
+
 def gen_cases(rng, tier):
     thorough = tier == 'thorough'
     rows = S.api_table()
@@ -521,6 +569,8 @@ def gen_cases(rng, tier):
                 cases.append(c)
     cases += targeted(rng, 150 if thorough else 30)
     cases += catalogued(rng, 300 if thorough else 60)
+    cases += units_catalogue(rng)
+    cases += alias_sequences(rng, 400 if thorough else 80)
     cases += sequences(rng, 6000 if thorough else 1000, 1000 if thorough else 200)
     return cases
 
